@@ -334,7 +334,7 @@ func (r *Report) finish(start time.Time) int {
 			}
 		}
 	}
-	var knownReported []string
+	knownReported := []string{}
 	for _, ke := range r.Known.Entries {
 		if ke.Kind != "known" || ke.Property != r.Property {
 			continue
